@@ -428,8 +428,10 @@ def setQuantiles : List (Nat × Nat) → List (Nat × Nat) → List (Nat × Nat)
   | (q, v) :: t, [] => (setF 0 q, setF 0 v) :: setQuantiles t []
   | (q, v) :: t, (oq, ov) :: ot => (setF oq q, setF ov v) :: setQuantiles t ot
 
-/-- BaseOtlpToStef.ConvertSummary (the data point flags are not looked at) -/
+/-- BaseOtlpToStef.ConvertSummary (a point flagged NoRecordedValue is stored as PointValueTypeNone
+    since repo commit ede8608; before it the flags were not looked at) -/
 def convSummary (src : Point) (p : SPoint) : SPoint :=
+  if flagged src then { p with ts := src.ts, start := src.start, value := .none } else
   let s : SSummary := match p.value with | .summary s => s | _ => {}
   { p with ts := src.ts, start := src.start,
            value := .summary { count := src.count, sum := setF s.sum src.sum,
@@ -577,19 +579,21 @@ def exemplarsToOtlp : List SExemplar → Except String (List Exemplar)
 
 def aggTempToOtlp (t : Nat) : Except String Nat := if t ≤ 2 then .ok t else .error "err:unexpected aggregation temporality"
 
-/-- BaseSTEFToOTLP.AppendOTLPPoint: the data point appended to a metric of type `t`. -/
+/-- BaseSTEFToOTLP.AppendOTLPPoint: the data point appended to a metric of type `t`. The exemplars
+    of a point without a recorded value are converted too (since repo commit ede8608; summaries have
+    no exemplars). -/
 def pointToOtlp (t : MType) (metric : SMetric) (attrs : SAttrs) (p : SPoint) : Except String Point :=
   let base : Point := { attrs := attrs.toOtlp, start := p.start, ts := p.ts }
   match t with
   | .gauge | .sum =>
     match p.value with
-    | .none => .ok { base with flags := 1 }
+    | .none => (exemplarsToOtlp p.exemplars).map fun ex => { base with flags := 1, exemplars := ex }
     | .int v => (exemplarsToOtlp p.exemplars).map fun ex => { base with vt := 1, v := v, exemplars := ex }
     | .dbl v => (exemplarsToOtlp p.exemplars).map fun ex => { base with vt := 2, v := v, exemplars := ex }
     | _ => .error "err:unexpected point value type"
   | .hist =>
     match p.value with
-    | .none => .ok { base with flags := 1 }
+    | .none => (exemplarsToOtlp p.exemplars).map fun ex => { base with flags := 1, exemplars := ex }
     | .hist h => (exemplarsToOtlp p.exemplars).map fun ex =>
         { base with count := h.count, buckets := h.buckets, bounds := metric.bounds,
                     hasSum := h.sum.isSome, sum := h.sum.getD 0, hasMin := h.min.isSome, min := h.min.getD 0,
@@ -597,7 +601,7 @@ def pointToOtlp (t : MType) (metric : SMetric) (attrs : SAttrs) (p : SPoint) : E
     | _ => .error "value-type-mismatch"
   | .exp =>
     match p.value with
-    | .none => .ok { base with flags := 1 }
+    | .none => (exemplarsToOtlp p.exemplars).map fun ex => { base with flags := 1, exemplars := ex }
     | .exp e => (exemplarsToOtlp p.exemplars).map fun ex =>
         { base with count := e.count,
                     hasSum := e.sum.isSome, sum := e.sum.getD 0, hasMin := e.min.isSome, min := e.min.getD 0,
@@ -816,11 +820,10 @@ structure SortState where
   tmp : SAttrs := {}
   tree : MetricTree := []
 
-/-- converter.covertNumberDataPoints -/
+/-- converter.covertNumberDataPoints (the `continue` on value-less points is gone since repo commit 42fcfbf) -/
 def sortNumbers (m : Metric) (mk : MetricKey) (rk : ResKey) (sk : ScopeKey) : List Point → SortState → Except String SortState
   | [], st => .ok st
   | p :: ps, st =>
-    if p.vt == 0 then sortNumbers m mk rk sk ps st else      -- `continue`: the point is dropped
     let tmp := SAttrs.mapSorted p.attrs st.tmp
     let ak := tmp.visible
     let pt : SPoint := { ts := p.ts, start := p.start }
